@@ -9,7 +9,7 @@ prop(
     needs_bin=True,
     stages=[
         dict(run="^TestPropHistory$",
-             quick=dict(checks=1600, shards=16, timeout=1800, shrinktime="15s"),
+             quick=dict(checks=960, shards=16, timeout=1800, shrinktime="15s"),
              thorough=dict(checks=32000, shards=16, timeout=10800, shrinktime="60s")),
     ],
     rule="a history = 1-2 commits on main (1-4 rule files x 1-5 rules over a small vocabulary, names repeat on purpose), a branch of 1-6 "
